@@ -396,6 +396,8 @@ func c25GenCase(r *verifx.Rng, rec *c25Rec) *c25Fake {
 	}
 	f.regime = verifx.Pick(r, []string{"s3", "pithos"})
 	f.listOrder = verifx.Pick(r, []string{"recency", "recency", "nulllast"})
+	f.pageSize = verifx.Pick(r, []int{0, 0, 1, 2, 3, 5})
+	f.zone = verifx.Pick(r, []*time.Location{nil, time.UTC, time.FixedZone("UTC-8", -8*3600), time.FixedZone("UTC+9:30", 9*3600+1800), time.FixedZone("UTC-11", -11*3600)})
 	f.listTags = r.Chance(1, 3)
 	c25GenHistory(r, f)
 	cfg := &storage.BucketLifecycleConfiguration{}
